@@ -36,6 +36,10 @@ func (r Res) Crashed() bool {
 		return true
 	}
 	s := string(r.Stderr)
+	// a panic inside a String method is recovered by fmt and printed as %!s(PANIC=...)
+	if strings.Contains(s, "(PANIC=") || bytes.Contains(r.Stdout, []byte("(PANIC=")) {
+		return true
+	}
 	return strings.Contains(s, "panic:") || strings.Contains(s, "fatal error:") || strings.Contains(s, "goroutine 1 [") || r.Exit == 2 && strings.Contains(s, "runtime.")
 }
 
